@@ -5,6 +5,12 @@ vectors V_k (own SVD), Z = M V_k, and the feedback matrix is formed in *feature 
 A_f = V_k [C1 C0^-1] V_k^T.  A_f depends only on span(V_k), not on the signs/basis of the PCs, so nothing of
 xeofs' PCA (sign flipping, solver) enters the oracle, and returned patterns are tested as they are returned
 (label-keyed, feature space).
+
+The eigen-relation A p = lambda p is invariant under a change of units of the retained series (z -> D^-1 z,
+A -> D^-1 A D, p -> D^-1 p).  The residual is therefore evaluated in equilibrated coordinates (every retained
+series scaled to unit norm), so that variables / PCs of very different amplitude (the `units` dimension of the
+alphabet: a lag-0 covariance whose variances differ by up to 1e10) all take part in the comparison instead of
+being drowned by the largest one, and the conditioning that enters the tolerance is the unit-free one.
 """
 
 from __future__ import annotations
@@ -27,7 +33,9 @@ TECHNIQUE = (
 RULE = (
     "full product of data class (catalogue random series; damped oscillators |lambda| in {0.7,0.9} x arg in {0.3,0.5,1.2} plus a real "
     "decaying mode, mixed into 3/5/6 features, noise-free and 1% noise; growing oscillators |lambda| in {1.01,1.05}, noise-free) x (use_pca=False | use_pca=True x n_pca_modes in {2,3,4,'all'}) "
-    "x center x standardize (thorough: x use_coslat x weights, more series); a case is non-trivial when the fit returned and the eigen-relation, "
+    "x center x standardize (thorough: x use_coslat x weights, more series) x units (variables with index >= 2 multiplied by 1, 1e-3 or 1e-5 after "
+    "the series is built: an ill-scaled lag-0 covariance; quick: units != 1 on the random series and on the noise-free oscillators r in {0.9,1.01}, arg 0.5, "
+    "p in {3,5} plus one noisy one; thorough: on every series, default coslat/weights); a case is non-trivial when the fit returned and the eigen-relation, "
     "pairing, period/damping formulae, ordering and transform=scores clauses were all evaluated on >= 2 modes; cases whose lag-0 covariance is "
     "singular in the reference (more PCs than the rank of a noise-free series) or whose PCA cut falls inside a degenerate cluster are outside "
     "the quantifier and tallied as skipped"
@@ -38,9 +46,10 @@ ASSUMPTIONS = [
     "the statement does not fix the covariance estimator: the eigen-relation is accepted under least squares (both sums over the N-1 pairs), "
     "lag-0 covariance over all N samples (equal normalisers, per-term means, or ddof=1 normalisers) and segment-centred covariances; one convention must fit all modes of a fit",
     "negative real eigenvalues: period 2 (formula) and inf (parenthetical of the statement) are both accepted",
+    "a change of units of some variables (x 1e-3, x 1e-5) leaves the statement untouched; residuals are measured in equilibrated coordinates of the retained series",
     "n_pca_modes given as a float (variance fraction) is not enumerated: the number of PCs it selects belongs to C15/C16; solver_kwargs is never passed (C15)",
 ]
-TALLY_KEYS = ("kind", "r", "use_pca", "n_pca_modes", "noise", "center", "standardize")
+TALLY_KEYS = ("kind", "r", "units", "use_pca", "n_pca_modes", "noise", "center", "standardize")
 TRUSTED = ["statsmodels import shim not used here"]
 
 GRID = {3: (3, 1), 4: (2, 2), 5: (5, 1), 6: (3, 2)}
@@ -71,18 +80,35 @@ def _datasets(tier):
     return ds
 
 
+UNITS = (1e-3, 1e-5)  # besides 1.0: amplitude of the variables with index >= 2 relative to the first two
+
+
+def _ill_scaled_subset(ds, tier):
+    """Which series also get the units != 1 presentations."""
+    if tier != "quick":
+        return True
+    if ds["kind"] == "random":
+        return True
+    if ds["theta"] != 0.5 or ds["shape"][1] not in (3, 5):
+        return False
+    return (ds["r"] in (0.9, 1.01) and not ds["noise"]) or (ds["r"] == 0.9 and ds["shape"][1] == 3)
+
+
 def cases(tier, seed):
     out = []
     flags = list(itertools.product([True, False], [False, True]))  # center, standardize
     extra = [(False, False)] if tier == "quick" else list(itertools.product([False, True], [False, True]))  # coslat, weights
-    for ds in _datasets(tier):
-        p = ds["shape"][1]
-        pcas = [(False, None)] + [(True, k) for k in (2, 3, 4) if k <= p] + [(True, "all")]
-        for use_pca, k in pcas:
-            for c, s in flags:
-                for cl, w in extra:
-                    out.append(dict(model="POP", use_pca=use_pca, n_pca_modes=k, center=c, standardize=s, coslat=cl, weights=w, **ds))
-    # simplest first: fewer PCs, default flags
+    for units in (1.0,) + UNITS:
+        for ds in _datasets(tier):
+            if units != 1.0 and not _ill_scaled_subset(ds, tier):
+                continue
+            p = ds["shape"][1]
+            pcas = [(False, None)] + [(True, k) for k in (2, 3, 4) if k <= p] + [(True, "all")]
+            for use_pca, k in pcas:
+                for c, s in flags:
+                    for cl, w in extra if units == 1.0 else [(False, False)]:
+                        out.append(dict(model="POP", use_pca=use_pca, n_pca_modes=k, center=c, standardize=s, coslat=cl, weights=w, units=units, **ds))
+    # simplest first: natural units, fewer PCs, default flags
     return out
 
 
@@ -116,6 +142,10 @@ def build_input(case, seed):
 
     X = build_matrix(case, seed)
     n, p = X.shape
+    if case.get("units", 1.0) != 1.0:  # change of units of the variables with index >= 2 (exact: eigenvalues of C1 C0^-1 do not depend on it)
+        u = np.ones(p)
+        u[2:] = case["units"]
+        X = X * u[None, :]
     nlat, nlon = GRID[p]
     lats = LATS[nlat]
     da = D.da_grid(X, nlat, nlon, lats=lats)
@@ -132,7 +162,8 @@ def build_input(case, seed):
 
 
 def feedback_variants(Z):
-    """All accepted estimators of C1 C0^-1 on the n x k series Z (rows in time order). name -> k x k matrix."""
+    """All accepted estimators of C1 C0^-1 on the n x k series Z (rows in time order). name -> k x k matrix,
+    and the condition number of the least-squares lag-0 matrix of Z."""
     N = Z.shape[0]
     Z0, Z1 = Z[:-1], Z[1:]
     S1 = Z1.T @ Z0  # sum_t z_{t+1} z_t^T
@@ -152,7 +183,7 @@ def feedback_variants(Z):
 
 
 def reference(case, M):
-    """-> dict(k, Vk, Uk, s, variants{name: A_feature_space}, cond) or a skip reason (str)."""
+    """-> dict(k, Vk, Uk, s, d, variants{name: A in equilibrated PC coordinates}, cond, raw_cond) or a skip reason (str)."""
     n, p = M.shape
     U, s, V = R.svd(M)
     gap = 1.0
@@ -169,10 +200,15 @@ def reference(case, M):
         if gap < 1e-6:
             return "pca_cut_in_cluster"
     Z = M @ Vk
-    var, cond = feedback_variants(Z)
+    d = np.linalg.norm(Z, axis=0)  # units of the retained series
+    if not np.all(d > 0):
+        return "singular_c0"
+    var, cond = feedback_variants(Z / d[None, :])  # unit-free: A_s = D^-1 A D
     if not np.isfinite(cond) or cond > 1e10:
         return "singular_c0"
-    return dict(k=k, Vk=Vk, Uk=U[:, :k], s=s, Z=Z, cond=cond, gap=gap, variants={nm: Vk @ A @ Vk.T for nm, A in var.items()})
+    raw_cond = float(np.linalg.cond(Z[:-1].T @ Z[:-1]))
+    weak = float(s[0] / s[k - 1])  # the weakest retained PC carries eps * weak relative rounding error from any SVD
+    return dict(k=k, Vk=Vk, Uk=U[:, :k], s=s, Z=Z, d=d, cond=cond, raw_cond=raw_cond, weak=weak, gap=gap, variants=var)
 
 
 def _match(a, b):
@@ -203,6 +239,8 @@ def run_case(case, seed):
         kw["n_pca_modes"] = case["n_pca_modes"]
     m = xe.single.POP(**kw)
     feats = dict(use_pca=case["use_pca"], kind=case["kind"])
+    if case.get("units", 1.0) != 1.0:
+        feats["rescaled_variables"] = True
     V = []
 
     def bad(check, msg, **extra):
@@ -247,7 +285,8 @@ def run_case(case, seed):
             bad("pca_reduced_data", "input_data is not the projection on the leading %d PCs: off-subspace %.2e, singular values off by %.2e" % (k, e1, e2))
 
     # ---------------- (a) eigen-relation in feature space, against the independent feedback matrix
-    tol = max(1e-9, 1e-13 * ref["cond"], 1e-14 / ref["gap"])  # digits necessarily lost to inv(C0) and to the PC-subspace gap
+    # digits necessarily lost to inv(C0) (unit-free conditioning), to the PC-subspace gap and to the weakest retained PC
+    tol = max(1e-9, 1e-13 * ref["cond"], 1e-14 / ref["gap"], 1e-14 * ref["weak"] * np.sqrt(ref["cond"]) if case["use_pca"] else 0.0)
     pn = np.linalg.norm(P, axis=0)
     if not np.all(np.isfinite(P)) or not np.all(np.isfinite(lam)) or np.any(pn <= 1e-12 * max(pn.max(), 1e-300)):
         bad("pattern_degenerate", "zero or non-finite pattern / eigenvalue: norms %s, eigenvalues %s" % (pn, lam))
@@ -256,10 +295,15 @@ def run_case(case, seed):
     off = np.linalg.norm(P - Vk @ (Vk.T @ P), axis=0) / pn
     if off.max() > 1e-8:
         bad("pattern_in_pc_space", "patterns leave the span of the retained PCs: relative off-subspace parts %s" % off)
+    Ps = (Vk.T @ P) / ref["d"][:, None]  # the returned patterns in equilibrated PC coordinates
+    psn = np.linalg.norm(Ps, axis=0)
+    if np.any(psn <= 1e-300):
+        bad("pattern_degenerate", "pattern without a component in the retained PC space: %s" % psn)
+        return dict(violations=V, outcome="violation")
     best = None
     for nm, A in ref["variants"].items():
         an = max(np.linalg.norm(A, 2), 1e-300)
-        res = np.linalg.norm(A @ P - P * lam[None, :], axis=0) / (an * pn)
+        res = np.linalg.norm(A @ Ps - Ps * lam[None, :], axis=0) / (an * psn)
         if best is None or res.max() < best[1].max():
             best = (nm, res, A)
     conv, res, A = best
@@ -267,7 +311,6 @@ def run_case(case, seed):
         bad("eigen_relation", "|A p - lambda p|/(|A||p|) = %s under the best-fitting estimator (%s), tol %.1e; lambda=%s" % (np.round(res, 6), conv, tol, np.round(lam, 4)))
     else:
         mu = np.linalg.eigvals(A)
-        mu = mu[np.argsort(-np.abs(mu))][:k]  # the p-k structural zeros of the feature-space matrix are not modes
         dist, _ = _match(lam, mu)
         if not dist <= max(1e-6, 1e3 * tol) * max(1.0, np.abs(mu).max()):
             bad("spectrum_complete", "returned eigenvalues %s are not the spectrum of A %s (matching distance %.2e)" % (np.round(lam, 5), np.round(mu, 5), dist))
@@ -340,7 +383,7 @@ def run_case(case, seed):
         if not (eT <= 1e-8 and etau <= 1e-8):
             bad("truth_recovery", "noise-free oscillator: periods %s vs true %s, damping times %s vs true %s" % (T_got, T_true, tau_got, tau_true))
 
-    info = dict(k=k, estimator=conv, residual=float(res.max()), n_complex=len(cplx), cond=ref["cond"], gap=ref["gap"], exact=bool(exact), max_abs_lambda=float(np.abs(lam).max()))
+    info = dict(k=k, pca=bool(case["use_pca"]), estimator=conv, residual=float(res.max()), n_complex=len(cplx), cond=ref["cond"], raw_cond=ref["raw_cond"], gap=ref["gap"], exact=bool(exact), max_abs_lambda=float(np.abs(lam).max()))
     return dict(violations=V, outcome="violation" if V else ("ok:exact" if exact else "ok"), nontrivial=not V and k >= 2 and P.size > 0 and S.size > 0, info=info)
 
 
@@ -357,6 +400,14 @@ def vacuity(outcomes, results, tier):
             return "no fit produced a growing mode (|lambda| > 1): the damping-time formula was only evaluated for |lambda| < 1"
         if not any(i.get("exact") and i.get("max_abs_lambda", 0.0) > 1.0 + 1e-6 for i in infos):
             return "no growing oscillator reached the truth-recovery clause"
+        # a lag-0 covariance whose variances differ by more than 1e8 although the unit-free problem is well conditioned
+        ill = [i for i in infos if i.get("raw_cond", 0.0) > 1e9 and i.get("cond", np.inf) < 1e6]
+        if not ill:
+            return "no fit had an ill-scaled (but unit-free well-conditioned) lag-0 covariance"
+        if not any(i.get("exact") for i in ill):
+            return "no ill-scaled noise-free oscillator reached the truth-recovery clause"
+        if not ({True, False} <= {bool(i.get("pca")) for i in ill}):
+            return "ill-scaled lag-0 covariances were not seen both with and without PCA"
         if len({i.get("k") for i in infos}) < 3:
             return "fewer than three distinct numbers of retained PCs were exercised"
     return None
